@@ -1651,9 +1651,18 @@ class Summarizer(Evaluator):
         for s, o in outs:
             back = State(dict(caller_env), s.heap, s.trace)
             if kind == 'local':
-                # a nested function may rebind nothing of its caller, but
-                # what it mutates is shared (the heap already is)
-                pass
+                # a nested function rebinds nothing of its caller (no
+                # nonlocal), but the objects it changes in place are the
+                # caller's: carry the new values of closure variables back
+                loc, par = _locals_of(target)
+                nonl = set()
+                for x in ast.walk(target):
+                    if isinstance(x, ast.Nonlocal):
+                        nonl.update(x.names)
+                for name, v in s.env.items():
+                    if name in caller_env and (name in nonl or (
+                            name not in loc and name not in par)):
+                        back.env[name] = v
             if o[0] == 'raise':
                 results.append((back, o))
                 continue
@@ -1734,6 +1743,8 @@ class Summarizer(Evaluator):
     def st_Expr(self, n, st):
         if isinstance(n.value, ast.Constant):
             return [(st, None)]
+        if isinstance(n.value, ast.Name) and n.value.id.startswith('__inl'):
+            return [(st, None)]     # the value of a followed helper, unused
         if self.appender_stack and self.appender_stack[-1] and isinstance(
                 n.value, ast.Call) and isinstance(
                 n.value.func, ast.Attribute) and n.value.func.attr == 'append' \
@@ -1890,6 +1901,23 @@ class Summarizer(Evaluator):
         return [(st, None)]
 
     def st_If(self, n, st):
+        if not n.orelse and len(n.body) == 1 and isinstance(
+                n.test, ast.Compare) and len(n.test.ops) == 1 and isinstance(
+                n.test.ops[0], ast.In) and isinstance(n.body[0], ast.Expr) \
+                and isinstance(n.body[0].value, ast.Call):
+            c = n.body[0].value
+            if isinstance(c.func, ast.Attribute) and c.func.attr == 'remove' \
+                    and len(c.args) == 1 and not c.keywords \
+                    and ast.dump(c.func.value) == ast.dump(
+                        n.test.comparators[0]) \
+                    and ast.dump(c.args[0]) == ast.dump(n.test.left):
+                # if x in s: s.remove(x)   ==   s.discard(x)
+                fake = ast.Expr(value=ast.Call(func=ast.Attribute(
+                    value=c.func.value, attr='discard', ctx=ast.Load()),
+                    args=c.args, keywords=[]))
+                ast.copy_location(fake, n)
+                ast.fix_missing_locations(fake)
+                return self.stmt(fake, st)
         t = as_bool(self.k(n.test, st))
         if t[0] == 'const':
             return self.block(n.body if t[1] else n.orelse, st)
@@ -1976,6 +2004,7 @@ class Summarizer(Evaluator):
         mutated = set()
         attrs = set()
         sub_store = False
+        sub_bases = []
 
         def note(name, node):
             pos = (getattr(node, 'lineno', 0), getattr(node, 'col_offset', 0))
@@ -1999,6 +2028,7 @@ class Summarizer(Evaluator):
                     attrs.add(node.attr)
                 else:
                     sub_store = True
+                    sub_bases.append(node.value)
             elif isinstance(node, ast.Expr) and isinstance(
                     node.value, ast.Call) and isinstance(
                     node.value.func, ast.Attribute):
@@ -2039,9 +2069,26 @@ class Summarizer(Evaluator):
                 continue
             body_st.env[name] = ('carried', depth, n)
             n += 1
+        # items stored in the body: forget what is known about the items of
+        # those containers (of every container, if one cannot be named)
+        base_keys = set()
+        if sub_store:
+            probe = State(dict(body_st.env), dict(body_st.heap), [])
+            try:
+                saved = self.record_calls
+                self.record_calls = False
+                for b in sub_bases:
+                    base_keys.add(self.k(b, probe))
+                self.record_calls = saved
+            except AnalysisError:
+                self.record_calls = saved
+                base_keys = None
         for hk in list(body_st.heap):
-            if hk[1] in attrs or (sub_store and isinstance(hk[1], tuple)
-                                  and hk[1][0] == 'idx'):
+            if hk[1] in attrs:
+                del body_st.heap[hk]
+            elif sub_store and isinstance(hk[1], tuple) \
+                    and hk[1][0] == 'idx' and (base_keys is None
+                                               or hk[0] in base_keys):
                 del body_st.heap[hk]
 
     def _flags(self, body, pre):
